@@ -6,7 +6,8 @@ nested in a scope `outer`, so two enclosing scopes wait for the stream) and cons
   sibling  after `create` was left, inside scope `consume` (state R1=11, R2=12)
   outside  after `create` was left, outside every scope
   task     in another task (plain or ctx.spawn'ed) that entered its own scope `other` (R1=31)
-fully, with an early break after k items (abandoned), or with an explicit aclose() after k items.
+fully, with an early break after k items (abandoned), or with an explicit aclose() after k items; in a quarter of the cases the
+consumer is cleanup code of a cancelled task (it caught its CancelledError, Task.cancelling() > 0, nothing new is pending).
 The generator yields 0-5 unique items then ends, raises, or ends with a CancelledError of its own; before every yield it probes the state it sees,
 optionally from inside a nested scope of its own (R1=21), records metrics, or re-yields an inner stream.
 The consumer probes its (state, metrics scope, task group) triple before the stream, between items, and
@@ -52,7 +53,7 @@ ASSUMPTIONS = [
     "streams never iterated and garbage-collection timing of abandoned generators are unspecified (the harness closes abandoned streams after taking its probes, before judging completion)",
     "a stream is consumed by one task from first item to end",
 ]
-MINIMUMS = {"monitor:items": 300, "monitor:body-state": 1000, "monitor:consumer-between": 500, "monitor:consumer-after": 300, "monitor:completion": 300, "creation_differs_from_consumption": 200}
+MINIMUMS = {"monitor:items": 300, "monitor:body-state": 1000, "monitor:consumer-between": 500, "monitor:consumer-after": 300, "monitor:completion": 300, "creation_differs_from_consumption": 200, "consumed_while_cancelling": 60}
 JOBS = {"quick": 4, "thorough": 8}
 LEVEL_TEXT = (
     "The product of generator shapes (0-5 items, end/raise, yields inside a nested scope, metric records, an inner stream) x 4 consumption places x full/break/aclose modes is "
@@ -153,6 +154,17 @@ def run_case(R: Recorder, case: dict[str, Any], verbose: bool = False) -> None:
 
     async def consume(W: World) -> None:
         stream = holder["stream"]
+        if case.get("cancelling"):
+            # the consumer drains the stream from cleanup code: it was cancelled, caught the CancelledError and has not
+            # called uncancel(), so Task.cancelling() stays positive while it iterates; no new cancellation is pending
+            me = asyncio.current_task()
+            assert me is not None
+            me.cancel()
+            try:
+                await asyncio.sleep(0)
+            except asyncio.CancelledError:
+                pass
+            log["cancelling"] = me.cancelling()
         take_probe(W, ("c", "before"))
         log["cons_probes"].append((("c", "before"), "before"))
         k = None if mode == "full" else int(mode.split("@")[1])
@@ -257,6 +269,10 @@ def run_case(R: Recorder, case: dict[str, Any], verbose: bool = False) -> None:
     if differs:
         R.count("creation_differs_from_consumption")
     w0 = {"place": place, "mode": mode.split("@")[0]}
+    if case.get("cancelling"):
+        w0["consumer_cancelling"] = True
+        if log.get("cancelling"):
+            R.count("consumed_while_cancelling")
     if verbose:
         print("status", status, value, "program", log.get("program"))
         print("events", W.events)
@@ -344,12 +360,12 @@ def cases(tier: str, rng: random.Random):  # noqa: ANN201
                 modes = ["full"] + [f"break@{k}" for k in range(1, n + 1)] + [f"aclose@{k}" for k in range(1, n + 1)]
                 for mode in modes:
                     for nested_at in ([], [0], [n - 1] if n > 1 else []):
-                        yield {"items": n, "end": end, "nested_at": list(nested_at), "records": (n + len(mode)) % 2 == 0, "inner": False, "place": place, "mode": mode, "via": "plain" if n % 2 else "ctx", "falsy": (n + len(nested_at)) % 2 == 1, "deep": (n + len(mode) + len(nested_at)) % 3 == 0}
+                        yield {"items": n, "end": end, "nested_at": list(nested_at), "records": (n + len(mode)) % 2 == 0, "inner": False, "place": place, "mode": mode, "via": "plain" if n % 2 else "ctx", "falsy": (n + len(nested_at)) % 2 == 1, "deep": (n + len(mode) + len(nested_at)) % 3 == 0, "cancelling": (n + len(mode) + len(nested_at) + len(place)) % 4 == 0}
     for _ in range({"quick": 300, "thorough": 20000}[tier]):
         n = rng.randint(1, 5)
         total = n + 2
         yield {"items": n, "end": rng.choice(["stop", "raise", "raise-cancelled"]), "nested_at": sorted(rng.sample(range(n), rng.randint(0, min(2, n)))), "records": rng.random() < 0.5, "inner": rng.random() < 0.4,
-               "falsy": rng.random() < 0.4, "deep": rng.random() < 0.4, "place": rng.choice(["same", "sibling", "outside", "task"]), "mode": rng.choice(["full", "full", f"break@{rng.randint(1, total)}", f"aclose@{rng.randint(1, total)}"]), "via": rng.choice(["plain", "ctx"])}
+               "falsy": rng.random() < 0.4, "deep": rng.random() < 0.4, "cancelling": rng.random() < 0.25, "place": rng.choice(["same", "sibling", "outside", "task"]), "mode": rng.choice(["full", "full", f"break@{rng.randint(1, total)}", f"aclose@{rng.randint(1, total)}"]), "via": rng.choice(["plain", "ctx"])}
 
 
 def run(R: Recorder, tier: str, seed: int, shard: int, nshards: int) -> None:
